@@ -928,11 +928,13 @@ open LinVerif.Kv.BW
 def persistSyncs : Bytes → Bool := fun _ => syncsEveryRecord Generated.C01.persistLoopSteps
 
 /-- the loop body of persistEditLogs: marshal, Write, Sync — each on every iteration (none of them inside a
-nested if / switch / loop body), and no other call on the writer -/
+nested if / switch / loop body), no other call on the writer, and no jump (continue / break / goto / success
+return) that would leave the iteration between them; the only exits are the error returns -/
 theorem tie_persist_syncs_every_record :
     only ["editLog.marshal", "writer.Write", "writer.Sync", "writer.Flush", "writer.Close", "writer.Reset",
           "guarded:editLog.marshal", "guarded:writer.Write", "guarded:writer.Sync", "guarded:writer.Flush",
-          "guarded:writer.Close", "guarded:writer.Reset"] Generated.C01.persistLoopSteps
+          "guarded:writer.Close", "guarded:writer.Reset", "continue", "break", "goto", "return-nil",
+          "guarded:continue", "guarded:break", "guarded:goto", "guarded:return-nil"] Generated.C01.persistLoopSteps
       = persistEditLogsSteps ∧
     syncsEveryRecord Generated.C01.persistLoopSteps = true := by decide
 
